@@ -170,9 +170,12 @@ func (core *JApiCore) processJApiProject() *jerr.JApiError {
 		return je
 	}
 
+	core.verifPhase("scan")
+
 	if je := core.compileCore(); je != nil {
 		return je
 	}
+	core.verifPhase("expand")
 
 	if je := core.buildCatalog(); je != nil {
 		return je
